@@ -3,6 +3,10 @@
 package saml
 
 import (
+	"bytes"
+	"compress/flate"
+	"encoding/base64"
+	"io"
 	"time"
 
 	"github.com/beevik/etree"
@@ -117,4 +121,101 @@ func Harness_C13_metadata() {
 		}
 	}
 	verifAssert(found == signing, "C13/metadata/signing-descriptor-iff-method-configured")
+}
+
+// Harness_C13_wire: the convenience entry points that return the wire form (POST forms and the logout
+// redirect URLs), with signing configured and an IdP whose logout endpoints advertise a ResponseLocation
+// different from their Location: the message recovered from the wire form carries an enveloped
+// signature of the SP key that verifies over the element as emitted.
+func Harness_C13_wire() {
+	sp := verifSP("sp")
+	kind := verifChoose("keykind", 2)
+	sp.Key = verifTestSigner(kind, 0)
+	sp.Certificate = verifTestCert(kind, 0)
+	sp.SignatureMethod = []string{"http://www.w3.org/2001/04/xmldsig-more#rsa-sha256", "http://www.w3.org/2001/04/xmldsig-more#ecdsa-sha256"}[kind]
+	d := &sp.IDPMetadata.IDPSSODescriptors[0]
+	d.SingleSignOnServices = []Endpoint{{Binding: HTTPPostBinding, Location: "https://idp.example.com/sso"}}
+	d.SingleLogoutServices = []Endpoint{
+		{Binding: HTTPPostBinding, Location: "https://idp.example.com/slo", ResponseLocation: "https://idp.example.com/slo-done"},
+		{Binding: HTTPRedirectBinding, Location: "https://idp.example.com/slo-r", ResponseLocation: "https://idp.example.com/slo-r-done"},
+	}
+	var drawn []byte
+	calls := 0
+	RandReader = verifRandReader{&drawn, &calls}
+	now := verifNondetTimeMs("now")
+	TimeNow = func() time.Time { return now }
+	relayState := verifNondetString("relayState")
+
+	var raw []byte
+	name := ""
+	switch verifChoose("message", 4) {
+	case 0:
+		name = "authn-request-post"
+		body, err := sp.MakePostAuthenticationRequest(relayState)
+		if err != nil {
+			return
+		}
+		raw = verifFormMessage(body, "SAMLRequest")
+	case 1:
+		name = "logout-request-post"
+		body, err := sp.MakePostLogoutRequest("name-id", relayState)
+		if err != nil {
+			return
+		}
+		raw = verifFormMessage(body, "SAMLRequest")
+	case 2:
+		name = "logout-response-post"
+		body, err := sp.MakePostLogoutResponse("request-id", relayState)
+		if err != nil {
+			return
+		}
+		raw = verifFormMessage(body, "SAMLResponse")
+	case 3:
+		name = "logout-response-redirect"
+		u, err := sp.MakeRedirectLogoutResponse("request-id", relayState)
+		if err != nil {
+			return
+		}
+		q := u.Query()
+		if len(q["SAMLResponse"]) != 1 {
+			verifAssert(false, "C13/wire/"+name+"/message-parameter-present")
+			return
+		}
+		deflated, derr := base64.StdEncoding.DecodeString(q["SAMLResponse"][0])
+		if derr != nil {
+			verifAssert(false, "C13/wire/"+name+"/message-parameter-is-base64")
+			return
+		}
+		inflated, ierr := io.ReadAll(flate.NewReader(bytes.NewReader(deflated)))
+		if ierr != nil {
+			verifAssert(false, "C13/wire/"+name+"/message-parameter-inflates")
+			return
+		}
+		raw = inflated
+	}
+	verifReach("emitted")
+	verifAssert(raw != nil, "C13/wire/"+name+"/message-recoverable-from-the-wire-form")
+	if raw == nil {
+		return
+	}
+	el := verifParseAssertionBytes(raw)
+	verifAssert(el != nil, "C13/wire/"+name+"/message-is-xml")
+	if el == nil {
+		return
+	}
+	verifReach("recovered")
+	verifAssert(verifSignedBy(el, kind, 0), "C13/wire/"+name+"/emitted-element-carries-a-verifying-sp-signature")
+}
+
+// verifFormMessage: the bytes of the base64 field `name` of an auto-submit form (nil if absent or not base64).
+func verifFormMessage(body []byte, name string) []byte {
+	v, ok := verifFormField(body, name)
+	if !ok {
+		return nil
+	}
+	raw, err := base64.StdEncoding.DecodeString(v)
+	if err != nil {
+		return nil
+	}
+	return raw
 }
